@@ -461,7 +461,12 @@ class C03(LockCheck):
 class C07(LockCheck):
     lean_module = 'CppUtil.Props.C07'
     theorems = ['CppUtil.Props.c07_release_enabled_iff', 'CppUtil.Props.c07_release_finishes',
-                'CppUtil.Props.c07_done_absorbing', 'CppUtil.Props.c07_release_once']
+                'CppUtil.Props.c07_done_absorbing', 'CppUtil.Props.c07_release_once',
+                # guard classes (client layer WClient): every well-formed program, every schedule
+                'CppUtil.Props.c07_client_owner_holds', 'CppUtil.Props.c07_client_owner_holds_at_boundary',
+                'CppUtil.Props.c07_client_one_owner', 'CppUtil.Props.c07_client_optguard_owns_nothing',
+                'CppUtil.Props.c07_client_no_orphan', 'CppUtil.Props.c07_client_quiescent',
+                'CppUtil.Props.c07_client_release_enabled', 'CppUtil.WClient.step_inv', 'CppUtil.WClient.wfB_sound']
     categories = ['guard']
 
 
